@@ -227,6 +227,21 @@ func (c *cursorManager) getCursorKey(cursorID, streamName string, partitionID in
 func (c *cursorManager) getLatestCursorOffset(ctx context.Context, cursorKey []byte, partition *partition) (
 	int64, error) {
 
+	// Resume a paused cursors partition before consulting its log (the
+	// subscription below would resume it anyway). Nobody leads a paused
+	// partition, so after a crash its log can report a high watermark that is
+	// behind cursors which were stored and acknowledged; the leader
+	// re-evaluates it when the partition is resumed.
+	if partition.IsPaused() {
+		if err := c.api.resumeStream(ctx, cursorsStream, partition.Id); err != nil {
+			return 0, err
+		}
+		partition = c.metadata.GetPartition(cursorsStream, partition.Id)
+		if partition == nil {
+			return 0, fmt.Errorf("cursors partition does not exist")
+		}
+	}
+
 	hw := partition.log.HighWatermark()
 	oldest := partition.log.OldestOffset()
 
